@@ -114,6 +114,12 @@ func extractVisibilityModifier(modifiers string) string {
 	return "" // return an empty string if no visibility modifier is found
 }
 
+// isComment reports whether a parse-tree node is a comment: comments may stand between any two
+// tokens and are never one of the parts of a declaration or statement.
+func isComment(node *sitter.Node) bool {
+	return node.Type() == "block_comment" || node.Type() == "line_comment"
+}
+
 func isJavaSourceFile(filename string) bool {
 	return filepath.Ext(filename) == ".java"
 }
@@ -289,17 +295,17 @@ func visitAST(node *sitter.Node, sourceCode []byte, graph *CodeGraph, currentCon
 	case "if_statement":
 		ifNode := model.IfStmt{}
 		// get the condition of the if statement
-		conditionNode := node.Child(1)
+		conditionNode := node.ChildByFieldName("condition")
 		if conditionNode != nil {
 			ifNode.Condition = &model.Expr{Node: *conditionNode, NodeString: conditionNode.Content(sourceCode)}
 		}
 		// get the then block of the if statement
-		thenNode := node.Child(2)
+		thenNode := node.ChildByFieldName("consequence")
 		if thenNode != nil {
 			ifNode.Then = model.Stmt{NodeString: thenNode.Content(sourceCode)}
 		}
 		// get the else block of the if statement
-		elseNode := node.Child(4)
+		elseNode := node.ChildByFieldName("alternative")
 		if elseNode != nil {
 			ifNode.Else = model.Stmt{NodeString: elseNode.Content(sourceCode)}
 		}
@@ -321,7 +327,7 @@ func visitAST(node *sitter.Node, sourceCode []byte, graph *CodeGraph, currentCon
 	case "while_statement":
 		whileNode := model.WhileStmt{}
 		// get the condition of the while statement
-		conditionNode := node.Child(1)
+		conditionNode := node.ChildByFieldName("condition")
 		if conditionNode != nil {
 			whileNode.Condition = &model.Expr{Node: *conditionNode, NodeString: conditionNode.Content(sourceCode)}
 		}
@@ -773,6 +779,9 @@ func visitAST(node *sitter.Node, sourceCode []byte, graph *CodeGraph, currentCon
 				argumentsNode := node.Child(i)
 				for j := 0; j < int(argumentsNode.NamedChildCount()); j++ {
 					argument := argumentsNode.NamedChild(j)
+					if isComment(argument) {
+						continue
+					}
 					switch argument.Type() {
 					case "identifier":
 						arguments = append(arguments, argument.Content(sourceCode))
@@ -840,6 +849,9 @@ func visitAST(node *sitter.Node, sourceCode []byte, graph *CodeGraph, currentCon
 					// typelist node and then iterate through type_identifier node
 					typeList := child.Child(j)
 					for k := 0; k < int(typeList.NamedChildCount()); k++ {
+						if isComment(typeList.NamedChild(k)) {
+							continue
+						}
 						implementedInterface = append(implementedInterface, typeList.NamedChild(k).Content(sourceCode))
 					}
 				}
@@ -899,6 +911,9 @@ func visitAST(node *sitter.Node, sourceCode []byte, graph *CodeGraph, currentCon
 					// if child type contains =, iterate through and get remaining content
 					if child.Child(j).Type() == "=" {
 						for k := j + 1; k < int(child.ChildCount()); k++ {
+							if isComment(child.Child(k)) {
+								continue
+							}
 							variableValue += child.Child(k).Content(sourceCode)
 						}
 					}
@@ -964,7 +979,7 @@ func visitAST(node *sitter.Node, sourceCode []byte, graph *CodeGraph, currentCon
 						"]": true,
 						",": true,
 					}
-					if !argumentStopWords[argType] {
+					if !argumentStopWords[argType] && !isComment(child.Child(j)) {
 						argument := &model.Expr{}
 						argument.Type = child.Child(j).Type()
 						argument.NodeString = child.Child(j).Content(sourceCode)
